@@ -542,7 +542,7 @@ package main
 //@ ghost var ghostCanPKCE bool
 //@ ghost var ghostPkceOK bool
 //@ func (*RuntimeState).idpOpenIDCGetClientConfig
-//@   ensures ret1 == nil ==> ret0 != nil && ret0.ClientID == client_id                                    #C12.client-by-id @C12
+//@   ensures ret1 == nil ==> ret0 != nil && ret0.ClientID == client_id                                    #C12.client-by-id @C12,C13
 //@   ensures fresh(ret0)
 //@ func (*OpenIDConnectClientConfig).ClientCanDoPKCEAuth
 //@   ensures ret0 ==> client.ClientSecret == ""                                                         #C12.pkce-only-secretless @C12
@@ -853,3 +853,20 @@ package main
 //@   nopanic kinds typeassert nilresult index slice divzero @C10
 //@ func (*RuntimeState).withParamsGenerateRoleRequestingCert
 //@   nopanic kinds typeassert nilresult index slice divzero @C10
+
+// ---- C12: the PKCE verdict follows the method bound into the code; the ID token names the key that signs it ------
+// "plain" equality proves a client only for a code bound with the plain (or no) method; for an S256 code only the
+// value computed from the verifier in this call counts (the challenge itself travels in the clear)
+//@ ghost var ghostProtected any
+//@ ghost var ghostS256 string
+//@ ghost var ghostS256Computed bool
+//@ func (*RuntimeState).idpOpenIDCValidCodeVerifier
+//@   atcall encoding/json.Unmarshal sets ghostProtected any (data []byte, v any, err2 error) :: v
+//@   atcall encoding/json.Unmarshal sets ghostS256Computed bool (data []byte, v any, err2 error) :: false
+//@   atcall (*encoding/base64.Encoding).EncodeToString sets ghostS256 string (enc *base64.Encoding, src []byte, out string) :: out
+//@   atcall (*encoding/base64.Encoding).EncodeToString sets ghostS256Computed bool (enc *base64.Encoding, src []byte, out string) :: true
+//@   ensures ret0 ==> isType[*keymasterdIDPCodeProtectedData](ghostProtected) && (((asType[*keymasterdIDPCodeProtectedData](ghostProtected).CodeChallengeMethod == "" || asType[*keymasterdIDPCodeProtectedData](ghostProtected).CodeChallengeMethod == "plain") && codeVerifier == asType[*keymasterdIDPCodeProtectedData](ghostProtected).CodeChallenge) || (asType[*keymasterdIDPCodeProtectedData](ghostProtected).CodeChallengeMethod == "S256" && ghostS256Computed && ghostS256 == asType[*keymasterdIDPCodeProtectedData](ghostProtected).CodeChallenge))   #C12.pkce-verdict-follows-the-bound-method @C12
+// the kid header of the tokens is the fingerprint of the key that signs them (the JWKS lists every signing key
+// under its fingerprint: C09), so a relying party that selects the key by kid verifies the token
+//@ func (*RuntimeState).idpOpenIDCTokenHandler
+//@   atcall (*github.com/go-jose/go-jose/v4.SignerOptions).WithHeader requires (so *jose.SignerOptions, k jose.HeaderKey, v any) :: k == "kid" ==> isType[string](v) && asType[string](v) == keyFP(signerPublic(state.Signer))   #C12.kid-names-the-signing-key @C12
